@@ -21,6 +21,7 @@ def dispatch (j : Json) : R Json := do
   | "range.new" => opRangeNew j
   | "key.new" => opKeyNew j
   | "config.new" => opConfigNew j
+  | "manifest.split" => opManifestSplit j
   | "eval.batch" => opEvalBatch j
   | "ctx.resolve" => opCtxResolve j
   | "ctx.ops" => opCtxOps j
